@@ -4,6 +4,7 @@ import (
 	"encoding/hex"
 	"encoding/json"
 	"github.com/brutella/hc/util"
+	"strings"
 )
 
 // Database stores entities
@@ -91,6 +92,12 @@ func (db *database) entityForKey(key string) (e Entity, err error) {
 
 	if b, err = db.storage.Get(key); err == nil {
 		err = json.Unmarshal(b, &e)
+	}
+
+	// JSON cannot hold every byte sequence (invalid UTF-8 is replaced when encoding);
+	// the key holds the exact name.
+	if name, herr := hex.DecodeString(strings.TrimSuffix(key, ".entity")); err == nil && herr == nil {
+		e.Name = string(name)
 	}
 
 	return
